@@ -79,6 +79,45 @@ def survey(arch, isa):
     return res
 
 
+_tponly = {}
+
+
+def tponly_lines(arch, isa):
+    """Lines built from the model's own entries that have a latency but no throughput (register operands only): they
+    carry tp_unknown without lt_unknown.  Checked with the implementation's semantics objects, steering only."""
+    if arch in _tponly:
+        return _tponly[arch]
+    from osaca.parser import get_parser
+    mm, sem = models.load(arch)
+    p = get_parser(isa)
+    out = []
+    for e in (mm._data.get("instruction_forms") or []):
+        try:
+            if e["throughput"] is not None or e["latency"] is None:
+                continue
+            ops = []
+            for k, o in enumerate(e["operands"]):
+                name = getattr(o, "name", None) or getattr(o, "prefix", None)
+                if type(o).__name__ != "RegisterOperand" or name is None:
+                    raise ValueError
+                if isa == "x86":
+                    ops.append("%%%s%d" % (name, k + 1) if name in ("xmm", "ymm", "zmm") else None)
+                else:
+                    ops.append("%s%d" % (name, k + 1) if name in ("x", "w", "d", "s", "q") else None)
+            if None in ops or not ops:
+                continue
+            line = "%s %s" % (e["name"].lower(), ", ".join(ops))
+            form = p.parse_line(line, 1)
+            sem.assign_src_dst(form)
+            sem.assign_tp_lt(form)
+            if "tp_unknown" in form.flags and "lt_unknown" not in form.flags:
+                out.append(line)
+        except Exception:
+            continue
+    _tponly[arch] = out
+    return out
+
+
 def mk(name, text, arch, isa, fixed, ign, lines=None, marked=None, lcd_timeout=10, kind=""):
     return dict(name=name, text=text, arch=arch, isa=isa, fixed=fixed, ignore_unknown=ign, lines=lines, marked=marked,
                 lcd_timeout=lcd_timeout, kind=kind)
@@ -128,6 +167,13 @@ def gen_body(rng, isa, arch, kind):
         body = [P[rng.choice(known)] for _ in range(rng.randrange(2, 8))]
         for _ in range(rng.randrange(1, 3)):
             body.insert(rng.randrange(len(body) + 1), P[rng.choice(lt)] if lt else rng.choice(UNKNOWN[isa]))
+    elif kind == "tponly":
+        tp = tponly_lines(arch, isa)
+        body = [P[rng.choice(known)] for _ in range(rng.randrange(2, 8))]
+        for _ in range(rng.randrange(1, 3)):
+            body.insert(rng.randrange(len(body) + 1), rng.choice(tp) if tp else rng.choice(UNKNOWN[isa]))
+        if rng.random() < 0.4:
+            body.insert(rng.randrange(len(body) + 1), rng.choice(UNKNOWN[isa]))
     elif kind == "long":
         body = [P[rng.choice(known)] for _ in range(rng.choice([100, 101, 101, 104, 110]))]   # 100: no warning yet
     elif kind == "fallback":
@@ -146,7 +192,7 @@ def gen_body(rng, isa, arch, kind):
     return body
 
 
-KINDS = ["mix", "mix", "unknown", "unknown", "allunknown", "zero", "sum10", "sum10", "sum100", "ltonly", "mix"]
+KINDS = ["mix", "tponly", "unknown", "unknown", "allunknown", "zero", "sum10", "sum10", "sum100", "ltonly", "mix"]
 
 
 def wrap(rng, isa, body, mode):
@@ -174,6 +220,10 @@ def generated_cases(rng, tier, n):
         isa = "x86" if c % 2 == 0 else "aarch64"
         arch = rng.choice(archs_for(isa, tier))
         kind = KINDS[c % len(KINDS)] if c >= 4 else ["long", "long", "long", "fallback"][c]
+        if kind == "tponly":                         # a model that has latency-only entries, whenever one exists
+            isa = "x86" if (c // len(KINDS)) % 4 != 3 else "aarch64"
+            cand = [a for a in archs_for(isa, tier) if tponly_lines(a, isa)]
+            arch = rng.choice(cand or archs_for(isa, tier))
         if kind == "fallback":
             isa = "aarch64"
         body = gen_body(rng, isa, arch, kind)
@@ -188,9 +238,9 @@ def generated_cases(rng, tier, n):
             continue
         text, lines, marked = wrap(rng, isa, body, mode)
         fixed = rng.random() < 0.5
-        use_arch = arch if (rng.random() < 0.85 or kind in ("sum10", "sum100", "ltonly")) else None
+        use_arch = arch if (rng.random() < 0.85 or kind in ("sum10", "sum100", "ltonly", "tponly")) else None
         name = "gen:%s/%s/%s/%d" % (kind, mode, arch, c)
-        if kind in ("unknown", "allunknown", "ltonly"):
+        if kind in ("unknown", "allunknown", "ltonly", "tponly"):
             for ign in (False, True):               # the pair that differs only in --ignore-unknown
                 out.append(mk(name + ("/ign" if ign else ""), text, use_arch, isa, fixed, ign, lines, marked, kind=kind))
         else:
